@@ -27,6 +27,9 @@ import c01
 from c01 import B
 
 IDS = [0, 1, 2 ** 53, "", "0", "1", "a"]
+F32 = "F32-cancel-id-float-or-bool"
+ODD_NOOP = ["null", "frac"]                         # pass structuring, equal no key
+ODD_BAD = ["array", "object", "noid", "noparams"]   # reported once, loop alive
 
 
 def twin(i):
@@ -92,12 +95,25 @@ class C08(c01.C01):
             else:
                 tgt, lo = rng.choice([x for x in IDS + [77, "zz"] if x not in used] or [77]), 0
             tag += 1
+            odd = None
+            if rng.random() < 0.3:
+                # every other JSON type of the id member
+                kind = rng.choice(["float", "bool", "null", "frac", "array", "object", "noid", "noparams"])
+                ints = [u for u in used if isinstance(u, int) and (kind == "float" or u in (0, 1))]
+                if kind in ("float", "bool"):
+                    tgt = rng.choice(ints) if ints and rng.random() < 0.8 else rng.choice([0, 1])
+                    odd = {"t": "notif", "tag": tag, "ver": True, "ps": "ok", "m": ["cancel", tgt], "cv": kind}
+                    lo = used.index(tgt) + 1 if tgt in used else 0
+                else:
+                    odd = {"t": "notif", "tag": tag, "ver": True, "ps": "ok" if kind in ODD_NOOP else "bad",
+                           "m": ["unknown"], "cv": kind}
+                    lo = 0
             # arrival position: after its target request (mostly), anywhere among the later frames
             positions = [p for p in range(len(msgs) + 1)
                          if sum(1 for e in msgs[:p] if e[1]["t"] == "req") >= lo]
             msgs.insert(rng.choice(positions),
-                        ["recv", {"t": "notif", "tag": tag, "ver": rng.random() > 0.03,
-                                  "ps": "ok" if rng.random() > 0.03 else "bad", "m": ["cancel", tgt]}])
+                        ["recv", odd or {"t": "notif", "tag": tag, "ver": rng.random() > 0.03,
+                                         "ps": "ok" if rng.random() > 0.03 else "bad", "m": ["cancel", tgt]}])
         if rng.random() < 0.2:
             msgs.insert(rng.randint(max(0, len(msgs) - 2), len(msgs)),
                         ["recv", {"t": "req", "id": ids.pop(), "ver": True, "ps": "ok", "m": ["shutdown", None]}])
@@ -130,14 +146,41 @@ class C08(c01.C01):
         # a seeded sample of the family, every interleaving of each sampled scenario (up to the cap)
         return out[:count]
 
+    def _resolve_unhashable(self, cases):
+        """A cancel whose id is an array or an object is unhashable: `_request_futures.pop(id, None)` raises
+        TypeError - reported once by the read loop - unless the table is EMPTY, in which case CPython's
+        dict.pop returns the default without hashing and nothing happens at all.  The model's vocabulary
+        has the two outcomes (PBad notification / unknown notification) but not the dependence on the
+        table, so the frame's class is fixed here from the model's own table just before the event.
+        (Removing a report never changes the table, so one pass is enough.)"""
+        todo = [c for c in cases if any(e[0] == "recv" and e[1].get("cv") in ("array", "object") for e in c["evs"])]
+        if not todo:
+            return
+        outs = core.run_driver(self.id, [sched.encode_case(c) for c in todo])
+        for c, toks in zip(todo, outs):
+            obs, _ = sched.parse_run(toks, len(c["evs"]))
+            evs = []
+            for k, e in enumerate(c["evs"]):
+                if e[0] == "recv" and e[1].get("cv") in ("array", "object") and e[1].get("ver", True):
+                    empty = (k == 0) or not obs[k - 1]["futs"]
+                    gated = k > 0 and (obs[k - 1]["shutdown"] or obs[k - 1]["exit"] is not None)
+                    e = ["recv", dict(e[1], ps="bad" if (not empty and not gated) else "ok")]
+                evs.append(e)
+            c["evs"] = evs
+
     def generate(self, chk):
+        cases = self._generate(chk)
+        self._resolve_unhashable(cases)
+        return cases
+
+    def _generate(self, chk):
         cases = []
         cdir = os.path.join(core.ROOT, "corpus", "C08")
         if os.path.isdir(cdir):
             for f in sorted(os.listdir(cdir)):
                 if f.endswith(".json"):
                     cases.extend(json.load(open(os.path.join(cdir, f))))
-        scens = [self._scenario(chk.rng) for _ in range(chk.n(1100, 20000))]
+        scens = [self._scenario(chk.rng) for _ in range(chk.n(850, 20000))]
         cases.extend(self._interleave(chk, scens))
         cases.extend(self._dup_cases(chk, chk.n(80, 1500), chk.n(4, 8)))
         small = self._small_scenarios(chk.rng, chk.n(12, 60))
@@ -221,8 +264,10 @@ class C08(c01.C01):
             obs, _ = sched.parse_run(toks, len(c["evs"]))
             ks = [k for k, e in enumerate(c["evs"]) if self._is_cancel(e) and self._unchanged(obs, k)]
             random.Random(len(c["evs"]) * 7919 + len(ks)).shuffle(ks)
-            for k in ks[:2]:
-                derived.append({"cfg": c["cfg"], "evs": c["evs"][:k] + c["evs"][k + 1:]})
+            # an id spelled as a JSON float or boolean is a wrong id type: the statement says it does nothing
+            forced = [k for k, e in enumerate(c["evs"]) if self._is_cancel(e) and e[1].get("cv") in ("float", "bool")]
+            for k in forced + [k for k in ks if k not in forced][:2]:
+                derived.append({"cfg": c["cfg"], "evs": c["evs"][:k] + c["evs"][k + 1:], "reg": sched.case_reg(c)})
                 where.append((ci, k))
         dres = super().run_impl(chk, derived) if derived else []
         for (ci, k), d in zip(where, dres):
@@ -254,7 +299,8 @@ class C08(c01.C01):
         # "never lost" clause carries C01's guard, so in that class only "at most" is required here
         S["exact"] = S["exact"] and not summ["f18"]
         wfail = case["cfg"].get("wfail") is not None
-        return {"M": {"obs": obs}, "S": None if wfail else S, "guard": not wfail, "klass": None}
+        f32 = any(self._is_cancel(e) and e[1].get("cv") in ("float", "bool") for e in case["evs"])
+        return {"M": {"obs": obs}, "S": None if wfail else S, "guard": not wfail and not f32, "klass": F32 if f32 else None}
 
     @staticmethod
     def _handler(frame):
@@ -344,6 +390,9 @@ class C08(c01.C01):
         except Exception:
             keep = False
         for cand in super().shrink(case):
+            if "reg" in case:
+                cand["reg"] = case["reg"]
+            self._resolve_unhashable([cand])
             if keep:
                 try:
                     if core.evaluate(self, None, [cand])[0]["verdict"] != "violation":
@@ -369,7 +418,8 @@ class C08(c01.C01):
     def search(self, chk):
         scens = [self._scenario(chk.rng) for _ in range(400)]
         res = core.evaluate(self, chk, self._interleave(chk, scens))
-        return [r for r in res if r["S"] is not None and not self.satisfies(r["case"], r["impl"], r["S"])][:1]
+        return [r for r in res if r["S"] is not None and not r["verdict"].startswith("known:")
+                and not self.satisfies(r["case"], r["impl"], r["S"])][:1]
 
 
 PROPERTY = C08
